@@ -203,3 +203,19 @@ Theorem C11_excluded_never_installed_partial : forall o pl f f' lg r,
             lookup f' q = lookup f q.
 Proof. exact unplanned_untouched_partial. Qed.
 Print Assumptions C11_excluded_never_installed_partial.
+
+(* containment extended to permission bits: outside DESTDIR (and its ancestors) no mode changes either *)
+Theorem C11_containment_modes_partial : forall o pl f f' lg r,
+  wf_plan o pl = true -> do_install o pl f = (f', lg, r) ->
+  forall q, ~ is_prefix (cleanp (effective_destdir o pl)) q -> ~ is_prefix q (cleanp (effective_destdir o pl)) ->
+            node_mode (lookup f' q) = node_mode (lookup f q).
+Proof. exact containment_modes_partial. Qed.
+Print Assumptions C11_containment_modes_partial.
+
+(* "installing a link never changes its target": set_mode (install_mode or the umask default, through
+   set_chmod's fallback) on a path that is a symbolic link leaves the whole filesystem unchanged *)
+Theorem C11_set_mode_on_link_changes_nothing : forall c p mode s s' r t,
+  nodd p = true -> lookup (s_fs s) (cleanp p) = Some (NLink t) ->
+  set_mode c p mode s = (s', r) -> s_fs s' = s_fs s.
+Proof. exact set_mode_on_link_changes_nothing. Qed.
+Print Assumptions C11_set_mode_on_link_changes_nothing.
